@@ -14,6 +14,14 @@ from entity_query_language import symbol, predicate, Predicate
 
 @symbol
 @dataclass(eq=False)
+class Pt:
+    """Constructed by the pt() methods WHILE a condition is computed: a @symbol constructor called by user code during
+    an evaluation has to build a plain object whatever mode the consumer of the results is in."""
+    x: Any = 0
+
+
+@symbol
+@dataclass(eq=False)
 class P:
     a: Any = 1
     b: Any = 1
@@ -28,6 +36,9 @@ class P:
 
     def inc(self):
         return self.a + 1
+
+    def pt(self):
+        return Pt(self.a)
 
     def getb(self):
         return self.b
@@ -57,6 +68,9 @@ class PE:
     def inc(self):
         return self.a + 1
 
+    def pt(self):
+        return Pt(self.a)
+
     def getb(self):
         return self.b
 
@@ -80,6 +94,9 @@ class Q:
 
     def inc(self):
         return self.a + 1
+
+    def pt(self):
+        return Pt(self.a)
 
     def __repr__(self):
         return f"Q#{self.ix}"
